@@ -611,6 +611,31 @@ func c11PoolRechecks() bool {
 	return found == ok
 }
 
+// c11PoolStopOrder: in workerPool.workerPoolMain the call <p>.workerStopper.Stop()
+// (which waits for every snapshot worker to return from its job) comes before
+// <p>.unloadNodes() (which drops the pool's and the busy references), both exactly once.
+func c11PoolStopOrder() bool {
+	p := loadPkg(".")
+	fd := p.Func("workerPool", "workerPoolMain")
+	var stop, unload []token.Pos
+	ast.Inspect(fd.Body, func(n ast.Node) bool {
+		if c, ok := n.(*ast.CallExpr); ok {
+			s := c11Sel(c.Fun)
+			if strings.HasSuffix(s, ".workerStopper.Stop") {
+				stop = append(stop, c.Pos())
+			}
+			if strings.HasSuffix(s, ".unloadNodes") {
+				unload = append(unload, c.Pos())
+			}
+		}
+		return true
+	})
+	if len(stop) != 1 || len(unload) != 1 {
+		panic(fmt.Sprintf("workerPoolMain: %d workerStopper.Stop() and %d unloadNodes() calls", len(stop), len(unload)))
+	}
+	return stop[0] < unload[0]
+}
+
 func init() {
 	str := func(s string) string { return fmt.Sprintf("%q%%string", s) }
 	register(&Unit{Name: "C11", Imports: "From Coq Require Import Bool.", Facts: []Fact{
@@ -667,6 +692,10 @@ func init() {
 		{Name: "pool_rechecks_before_schedule", Gen: func() string {
 			return "(* workerPool.workerPoolMain calls p.loadNodes() directly before every p.schedule() *)\n" +
 				defBool("pool_rechecks_before_schedule", c11PoolRechecks())
+		}},
+		{Name: "pool_stops_workers_before_unload", Gen: func() string {
+			return "(* workerPool.workerPoolMain on shutdown: workerStopper.Stop() before unloadNodes() *)\n" +
+				defBool("pool_stops_workers_before_unload", c11PoolStopOrder())
 		}},
 		{Name: "apply_checks_stopped", Gen: func() string {
 			return "(* engine.processApplies tests node.stopped() before node.handleTask *)\n" +
